@@ -1167,7 +1167,11 @@ func (e *Engine) sliceOp(fr *Frame, st *State, in *ssa.Slice) Value {
 	if in.High != nil {
 		e.oblige(fr, st, "slice", in, And(BVSle(zero, hi), BVSle(hi, limit)), "slice high bound out of range")
 		if e.strict && !fr.spec && !isString {
+			// checked, but not assumed afterwards: what happens when the reslice does
+			// reach into the spare capacity is still explored (and may panic later)
+			pc, dead := st.pc, st.dead
 			e.oblige(fr, st, "strictlen", in, BVSle(hi, ln), "reslice beyond len: the result could depend on spare capacity")
+			st.pc, st.dead = pc, dead
 		}
 	}
 	e.oblige(fr, st, "slice", in, And(BVSle(zero, lo), BVSle(lo, hi)), "slice low bound out of range")
